@@ -968,16 +968,7 @@ func (g *Generator) genAttributeDate(w io.Writer, attr *dictionary.Attribute, ve
 }
 
 func (g *Generator) genAttributeInteger(w io.Writer, attr *dictionary.Attribute, allValues []*dictionary.Value, bitsize int, vendor *dictionary.Vendor) {
-	var values []*dictionary.Value
-	for _, value := range allValues {
-		if value.Attribute == attr.Name {
-			if len(values) > 0 && values[len(values)-1].Number == value.Number {
-				values[len(values)-1] = value
-			} else {
-				values = append(values, value)
-			}
-		}
-	}
+	values := attributeValues(attr, allValues)
 
 	ident := identifier(attr.Name)
 	var vendorIdent string
